@@ -173,7 +173,7 @@ def check(ctx: Ctx) -> str:
             swallowed = [all(isinstance(s_, ast.Pass) for s_ in h.body) for h in ast.walk(fn) if isinstance(h, ast.ExceptHandler)]
             return {"handlers": hs, "loops": loops, "raises": rs_, "swallow": swallowed}
 
-        sa, sb = shape(a.node), shape(b.node)
+        sa, sb = shape(a.nnode), shape(b.nnode)  # normal form: a handler that only `continue`s at the end of the loop body is `pass`
         ctx.check(sa == sb, f"{cname}:siblings", f"loaders:{cname}.load", "get_source vs load", f"{cname}.get_source and {cname}.load differ in iteration / handling: {sa} vs {sb}", b.loc(), detail={"get_source": sa, "load": sb})
         ctx.check(sa["handlers"] == ["TemplateNotFound"], f"{cname}:handler", f"loaders:{cname}.get_source", "caught class", f"{cname} must catch exactly TemplateNotFound (got {sa['handlers']}): other errors of the first matching loader must propagate", a.loc())
         ctx.check(sa["raises"] and all(r == "TemplateNotFound" for r in sa["raises"]), f"{cname}:final", f"loaders:{cname}.get_source", "final raise", f"{cname} must end with TemplateNotFound", a.loc())
